@@ -69,6 +69,7 @@ def main(argv=None) -> int:
     ctx = Ctx(prop, args.tier, seed, shard=i, nshards=n)
     if hasattr(mod, "setup"):
         mod.setup(ctx)
+    ctx.count("log_mode", os.environ.get("VF_LOG_MODE") or "quiet")
     try:
         mod.run(ctx)
     except Exception:
